@@ -34,6 +34,14 @@ enum Step {
 
 fn workload(id: u64) -> (u64, Vec<Step>, Vec<Step>) {
     // (data blocks, phase A (fault-free, ends with flush), phase B (faulted))
+    if id == 5 {
+        // io_uring pass only: flush batches of more than 128 record writes (several submission chunks)
+        let mut b: Vec<Step> = (0..300).map(|i| Step::Put(i, 60 + i % 7)).collect();
+        b.push(Step::Flush);
+        b.extend((0..200).map(|i| Step::Put(i * 3 % 300, 90 + i % 5)));
+        b.push(Step::Flush);
+        return (1024, vec![], b);
+    }
     match id % 5 {
         0 => (64, vec![], vec![Step::Put(0, 100), Step::Put(1, 5000), Step::Put(2, 60), Step::Flush, Step::Put(0, 4200), Step::Del(2), Step::Flush, Step::Put(3, 9000), Step::Flush]),
         1 => (
@@ -407,7 +415,7 @@ fn judge_image(path: &str, v: &Value, snapshots: &[BTreeMap<usize, KState>], val
         Ok((r, _)) => r,
         Err(e) => return Err((format!("fault:unrecoverable:{kind}"), format!("{kind}: the device cannot be reopened after the failure: {e}"))),
     };
-    let nkeys = 8;
+    let nkeys = snapshots.iter().flat_map(|s| s.keys().copied()).max().map(|m| m + 1).unwrap_or(0).max(8);
     for k in 0..nkeys {
         let got: KState = match rec.dump.get(&key(k)) {
             None => None,
@@ -455,7 +463,7 @@ pub fn run(args: &Args) -> Report {
     // baseline: number the calls
     let mut plans: Vec<(u64, Value)> = Vec::new();
     let mut rng = Rng::derive(args.seed, shard, 0xfa17);
-    for wid in 0..5u64 {
+    for wid in 0..(if uring { 6u64 } else { 5 }) {
         let base = match run_child(&exe, &dir, &format!("base{wid}"), wid, &json!({}), false) {
             Ok(v) => v,
             Err(e) => {
@@ -484,6 +492,17 @@ pub fn run(args: &Args) -> Report {
         }
         for c in base["call_classes"].as_array().cloned().unwrap_or_default() {
             report.count(&format!("baseline_calls_{}", c.as_str().unwrap_or("")), 1);
+        }
+        if wid == 5 {
+            // hundreds of I/O calls: a sample of single failures spread over all submission chunks
+            let stride = if thorough { 3 } else { 11 };
+            for i in (0..n).filter(|i| i % stride == 0 || *i < 6) {
+                plans.push((wid, json!({"at": [[i, "before"]]})));
+            }
+            for i in (0..n).filter(|i| i % (stride * 5) == 1) {
+                plans.push((wid, json!({"at": [[i, "before"], [(i + 140).min(n - 1), "before"]]})));
+            }
+            continue;
         }
         for i in 0..n {
             plans.push((wid, json!({"at": [[i, "before"]]})));
